@@ -30,15 +30,25 @@ def mincfg(ctx, *args):
     install_fs(fs, K, O.G)
     k = ST.build(tid)
     ST.apply_state(k, slots, vals)
-    want = ST.values(k)
+    gens = 1
+    if "target" in ctx:
+        # second generation: the files of the state before one further (symbolic) operation are already on disk
+        gens = 2
     texts = {}
-    for labels in (False, True):
-        for norm in (False, True):
-            p = "/m/min_%d%d" % (labels, norm)
-            k.write_min_config(p, header="", labels=labels, normalize_unset=norm)
-            texts[(labels, norm)] = fs.read(p)
-    O.G.write_min_config(k, "/m/min_gen")
-    texts["gen"] = fs.read("/m/min_gen")
+    for gen in range(gens):
+        if gen == 1:
+            from .c03 import _apply_op
+
+            n = ctx["nstate"]
+            _apply_op(k, slots[ctx["target"]], Dom.from_json(ctx["odom"]), args[n], args[n + 1])
+        want = ST.values(k)
+        for labels in (False, True):
+            for norm in (False, True):
+                p = "/m/min_%d%d" % (labels, norm)
+                k.write_min_config(p, header="", labels=labels, normalize_unset=norm)
+                texts[(labels, norm)] = fs.read(p)
+        O.G.write_min_config(k, "/m/min_gen")
+        texts["gen"] = fs.read("/m/min_gen")
     for key, text in texts.items():
         if text is None:
             return False
@@ -54,6 +64,22 @@ def mincfg(ctx, *args):
     return True
 
 
+def _regen(trees, dom, budget, tmo, rng, ntargets):
+    """second generation over the files of the first: the options written last (a file that only gets shorter is the
+    corner of the unchanged-file shortcut) and seeded further ones"""
+    from .common import op_value_bounds
+
+    odom = Dom(int_max=9, int_cands=["-3"], str_mode="cand", str_cands=["p", ""], hex_cands=["0x1f", "0x2"], float_cands=["0.25", "5"])
+    out = []
+    for tid in trees:
+        slots = ST.layout(tid)
+        idx = [i for i, sl in enumerate(slots) if sl.kind != "pick"]
+        targets = idx[-2:] + rng.sample(idx[:-2], min(len(idx[:-2]), max(0, ntargets - 2)))
+        for t in targets:
+            out += state_jobs("C10", "vk.props.c10", "mincfg", [tid], dom, budget, 1, tmo, rng, {"target": t, "odom": odom.to_json()}, tag="regen-" + slots[t].name, extra_params=[("ok", "int"), ("ov", "int")], extra_pre="0 <= ok <= 3 and " + op_value_bounds(slots[t], odom), extra_samples=lambda r: [r.randint(0, 3), 0], must_free=lambda a, b, t=t: [b[t].name])
+    return out
+
+
 def jobs(tier, seed, excluded=()):
     rng = random.Random(seed)
     if tier == "quick":
@@ -63,9 +89,10 @@ def jobs(tier, seed, excluded=()):
         # small trees explored completely (ints from two candidates)
         cdom = Dom(int_max=-1, int_cands=["7", "10"], str_mode="cand", str_cands=["p"], hex_cands=["0x1f"], float_cands=["0.25"])
         out += state_jobs("C10", "vk.props.c10", "mincfg", ["E_choice_nested", "E_choice_default", "E_choice_member_dep"], cdom, 800, 1, 200, rng, tag="all")
+        out += _regen(["T01", "T05", "T07", "E_default_order"], dom, 12, 100, rng, 2)
         return out
     from ..trees import edges
 
     dom = Dom(int_max=100000, int_cands=["-3", "007", "1_0"], str_mode="cand", str_cands=STRS, hex_cands=["0x1f", "1f", "0X1F", "0x0"], float_cands=["5", "1e3", "0.25", ".5"])
     trees = ["T01", "T02", "T03", "T04", "T05", "T06", "T07", "T08", "T09", "T10", "T11", "T12", "T15"] + edges.ids()
-    return state_jobs("C10", "vk.props.c10", "mincfg", trees, dom, 300, 4, 400, rng)
+    return state_jobs("C10", "vk.props.c10", "mincfg", trees, dom, 300, 4, 400, rng) + _regen(["T01", "T03", "T05", "T06", "T07", "T09", "E_default_order", "E_choice_default"], dom, 40, 300, rng, 5)
